@@ -709,13 +709,28 @@ func TestC12Concurrent(t *testing.T) {
 				}
 			}(p)
 		}
+		if i%2 == 1 {
+			// other subscription ids attach (and replay the growing log) while the publishers run:
+			// different ids progress independently - the position saved for "seq" is not theirs to move
+			wg.Add(1)
+			go func() {
+				defer wg.Done()
+				<-start
+				for j := 0; j < 3; j++ {
+					ebu.SubscribeWithReplay(context.Background(), bus, fmt.Sprintf("late-%d", j), func(tA) { runtime.Gosched() }, ebu.Sequential())
+				}
+			}()
+		}
 		close(start)
 		wg.Wait()
 		bus.Wait()
 		witness := map[string]any{"publishers": P, "events_each": E, "gomaxprocs": procs[i%len(procs)], "saves_in_call_order": st.saves}
 		prev := ebu.Offset("")
 		for _, sv := range st.saves {
-			_, off, _ := strings.Cut(sv, "=")
+			sid, off, _ := strings.Cut(sv, "=")
+			if sid != "seq" {
+				continue
+			}
 			if ebu.Offset(off) < prev {
 				run.Violation("resume:saved-offset-moved-backwards-under-concurrent-publishers", fmt.Sprintf("a Sequential replay subscription saved offset %s after %s with %d concurrent publishers", off, prev, P), witness)
 				break
